@@ -21,6 +21,8 @@ end GenSkp
     `enc <skip> <hex data>` => raw DFTAG_COMPRESSED bytes
     `dec <skip> <n> <hex raw>` => the `n` decoded bytes (through the bit-id state machine) | fail
     `decb <skip> <n> <hex raw>` => same on the plain bit list (the function the round-trip theorem is about)
+    `lens <skip> <hex data>` => `<maxbits> <maxwords> <totalbits>`: longest code, most words of the encoder's bit stack used by
+       one code, length of the bit stream (computed from the model's `Hbitwrite` list; the engine measures them on a replica tree)
     `splay <left> <right> <up> <plain>` => `<left'> <right'> <up'>`: one `HCIcskphuff_splay` on one tree (decimal arrays:
        `left[SUCCMAX]`, `right[SUCCMAX]`, `up[TWICEMAX]`), model `splay` + the translated C function (`GenSkp`) -/
 def stepSkpHuff (args : List String) : String :=
@@ -38,6 +40,9 @@ def stepSkpHuff (args : List String) : String :=
       | some o => toHex o
       | none => "fail"
     | _, _, _ => "bad-op"
+  | ["lens", k, d] => match k.toNat?, parseHex d with
+    | some k, some bs => let r := codeLens k bs; s!"{r.1} {r.2.1} {r.2.2}"
+    | _, _ => "bad-op"
   | ["splay", l, r, u, p] => match natList l, natList r, natList u, p.toNat? with
     | some l, some r, some u, some p =>
       let t := splay { left := l.toArray, right := r.toArray, up := u.toArray } p
